@@ -1,7 +1,7 @@
 (* C10 - speaking restrictions (+n, +m, bans) hold and NOTICE is never answered.
    Statements only; proofs in IRCP.MsgP and IRCP.BanP. *)
 From IRC Require Import Str Wild Glob Parse Reply State Handlers Step.
-From IRCP Require Import MsgP BanP InvDefs AwayGlobal.
+From IRCP Require Import MsgP BanP InvDefs AwayGlobal MsgGlobal.
 From stdpp Require Import gmap.
 
 Section C10.
@@ -81,7 +81,16 @@ Theorem C10_away_changes_only_by_own_away : forall cfg verify w i e w' o cl, Inv
       (c_auth c = false /\ u_away u' = None))).
 Proof. exact away_changes_only_by_own_away. Qed.
 
+(* NOTICE IS NEVER ANSWERED, as a whole step of the server after any history: every line sent in the step of a registered
+   connection's NOTICE line - to the sender or to anybody else - is the relayed NOTICE itself; no numeric, no error reply, no
+   away reply; the state is unchanged and nobody is closed, whatever the targets (absent, forbidden by +n / +m / a ban, away) *)
+Theorem C10_notice_step_silent : forall cfg verify w i l msg targets text c w' o cl, Inv w -> step cfg verify w i (EvLine l) = Ok (w', o, cl) ->
+  conns w !! i = Some c -> c_auth c = true -> tokenize l = inl msg -> command_of_message msg = inl (NOTICE targets text) ->
+  sh w' = sh w /\ cl = [] /\ Forall (fun x => exists t, t ∈ targets /\ x.2 = msg_line c true t text) o.
+Proof. exact notice_step_silent. Qed.
+
 Print Assumptions C10_can_send_iff.
+Print Assumptions C10_notice_step_silent.
 Print Assumptions C10_delivered_if_can_send.
 Print Assumptions C10_refused_if_cannot_send.
 Print Assumptions C10_notice_silent.
